@@ -130,7 +130,7 @@ def make_cases(seed, tier):
 
 # alg-yescrypt-opt.c has three bodies selected by the compiler's target: SSE2 (every default x86-64 build),
 # AVX (distributions building for x86-64-v3) and the portable C one (every other architecture)
-ISA = {"avx2": "-mavx2", "portable": "-mno-sse2 -mno-sse", "ndebug": "-DNDEBUG (whole library)"}
+ISA = {"avx2": "-mavx2", "portable": "-mno-sse2 -mno-sse", "openmp": "-fopenmp", "ndebug": "-DNDEBUG (whole library)"}
 ISA_EXE = {}
 
 
@@ -150,7 +150,8 @@ def build_isa(tree):
         if k == "ndebug":
             continue
         o = tree.variant_object("opt", "alg-yescrypt-opt.c", "isa-" + k, None, fl)
-        ISA_EXE[k] = tree.program("opt", "vw.c", name="vw-opt-" + k, replace={"alg-yescrypt-opt.o": o})
+        ISA_EXE[k] = tree.program("opt", "vw.c", name="vw-opt-" + k, replace={"alg-yescrypt-opt.o": o},
+                                  libs="-fopenmp" if k == "openmp" else "")
 
 
 def do_chunk(chunk):
